@@ -216,9 +216,78 @@ func rewrite(fset *token.FileSet, af *ast.File, info *types.Info, src []byte, po
 		}
 	}
 	_ = syncName
+	// channel operations that are the communication of a select case are left alone
+	skip := map[ast.Node]bool{}
+	recv2 := map[ast.Node]bool{}
 	ast.Inspect(af, func(n ast.Node) bool {
 		switch s := n.(type) {
+		case *ast.SelectStmt:
+			for _, cl := range s.Body.List {
+				if cc, ok := cl.(*ast.CommClause); ok && cc.Comm != nil {
+					skip[cc.Comm] = true
+					ast.Inspect(cc.Comm, func(m ast.Node) bool {
+						if u, ok := m.(*ast.UnaryExpr); ok && u.Op == token.ARROW {
+							skip[u] = true
+						}
+						return true
+					})
+					stats["select_comms_left_alone"]++
+				}
+			}
+		case *ast.AssignStmt:
+			if len(s.Lhs) == 2 && len(s.Rhs) == 1 {
+				if u, ok := s.Rhs[0].(*ast.UnaryExpr); ok && u.Op == token.ARROW {
+					recv2[u] = true
+				}
+			}
+		case *ast.ValueSpec:
+			if len(s.Names) == 2 && len(s.Values) == 1 {
+				if u, ok := s.Values[0].(*ast.UnaryExpr); ok && u.Op == token.ARROW {
+					recv2[u] = true
+				}
+			}
+		}
+		return true
+	})
+	isChan := func(e ast.Expr) bool {
+		tv, ok := info.Types[e]
+		if !ok || tv.Type == nil {
+			return false
+		}
+		_, c := tv.Type.Underlying().(*types.Chan)
+		return c
+	}
+	ast.Inspect(af, func(n ast.Node) bool {
+		switch s := n.(type) {
+		case *ast.SendStmt:
+			if skip[s] || !isChan(s.Chan) {
+				return true
+			}
+			eds = append(eds, edit{off(s.Chan.Pos()), off(s.Chan.Pos()), "verifrt.ChanSend("})
+			eds = append(eds, edit{off(s.Chan.End()), off(s.Value.Pos()), ", "})
+			eds = append(eds, edit{off(s.Value.End()), off(s.Value.End()), ")"})
+			needRT = true
+			stats["chan_sends"]++
+		case *ast.UnaryExpr:
+			if s.Op != token.ARROW || skip[s] || !isChan(s.X) {
+				return true
+			}
+			fn := "verifrt.ChanRecv("
+			if recv2[s] {
+				fn = "verifrt.ChanRecv2("
+			}
+			eds = append(eds, edit{off(s.Pos()), off(s.X.Pos()), fn})
+			eds = append(eds, edit{off(s.X.End()), off(s.X.End()), ")"})
+			needRT = true
+			stats["chan_recvs"]++
 		case *ast.RangeStmt:
+			if isChan(s.X) {
+				eds = append(eds, edit{off(s.X.Pos()), off(s.X.Pos()), "verifrt.ChanRange("})
+				eds = append(eds, edit{off(s.X.End()), off(s.X.End()), ")"})
+				needRT = true
+				stats["chan_ranges"]++
+				return true
+			}
 			tv, ok := info.Types[s.X]
 			if !ok || tv.Type == nil {
 				return true
@@ -238,6 +307,14 @@ func rewrite(fset *token.FileSet, af *ast.File, info *types.Info, src []byte, po
 			needRT = true
 			stats["go_stmts"]++
 		case *ast.CallExpr:
+			if id, ok := s.Fun.(*ast.Ident); ok && id.Name == "close" && len(s.Args) == 1 && isChan(s.Args[0]) {
+				if _, builtin := info.Uses[id].(*types.Builtin); builtin {
+					eds = append(eds, edit{off(id.Pos()), off(id.End()), "verifrt.ChanClose"})
+					needRT = true
+					stats["chan_closes"]++
+				}
+				return true
+			}
 			sel, ok := s.Fun.(*ast.SelectorExpr)
 			if !ok {
 				return true
